@@ -155,7 +155,10 @@ CHECKS = {
         'expression and every visiting order the compiled symbol table evaluates at the apply and train tails to the '
         'expression denotation (C03_pipeline_compiles); the states it trains for the stateful apply-path groups are in pipeline '
         'order the persisted list of the denotation (C03_graph_persisted), and compiled with an accessor persisting those groups the '
-        'table\'s committer evaluates to exactly that list for every expression and visiting order (C03_pipeline_commits). Correspondence: random expressions and all parenthesisations of short '
+        'table\'s committer evaluates to exactly that list for every expression and visiting order (C03_pipeline_commits); the apply segment alone (build_a), evaluated or compiled '
+        'under any visiting order with the accessor holding that committed list bound by position, delivers the apply output of '
+        'the denotation (C03_apply_reloads, C03_apply_compiles). Correspondence (C03Graph.check_case_graph runs the denotation AND '
+        'both executable graph models against the real observations): random expressions and all parenthesisations of short '
         'ones, built with the real wrap decorators or written against the public composition API (partial Trunk.extend, taps), '
         'composed, compiled and executed in train mode and (in a separate expansion) apply mode.',
         BASE_NOTE + 'MapReduce and the debug operators are not modelled; the graph model is tied to the real graph-building code through the executed behaviour (real execution = den = evaluation of the graph model), not by comparing graphs.',
